@@ -1013,6 +1013,8 @@ class Evaluator:
                     return None
                 r = self.repo.find_method(self.cls, f.attr)
                 if r:
+                    if any(norm(d) == "staticmethod" for d in r[1].decorator_list):
+                        return r[1], self.cls, None, "static"
                     return r[1], self.cls, SELF, "method"
             if isinstance(base, ast.Call) and norm(base.func) == "super" and self.cls:
                 mro = self.repo.mro(self.cls)
@@ -1022,7 +1024,7 @@ class Evaluator:
                         return c.methods[f.attr], c.name, SELF, "super"
             if isinstance(base, ast.Name) and self.repo.has_class(base.id) and base.id not in st.env:
                 ci = self.repo.cls(base.id)
-                if f.attr in ci.methods and self.inline_static:
+                if f.attr in ci.methods and (self.inline_static or base.id == self.cls) and f.attr not in self.opaque_methods:
                     fn = ci.methods[f.attr]
                     is_static = any(norm(d) == "staticmethod" for d in fn.decorator_list)
                     return fn, base.id, None if is_static else None, "static"
